@@ -372,6 +372,11 @@ static bool run_once(Registry& R, std::vector<Behaviour>& bs)
 
 int main(int argc, char** argv)
 {
+    // The children of this harness die of, or are stopped by, signals on purpose.  A process started as a background job of a
+    // non-interactive shell (or under nohup) inherits SIGINT / SIGQUIT / SIGHUP as "ignored", and a child that raises such a signal
+    // would then simply go on: start from the default disposition and an empty signal mask, whatever the caller left us with.
+    for (int sig = 1; sig < NSIG; sig++) if (sig != SIGKILL && sig != SIGSTOP) signal(sig, SIG_DFL);
+    { sigset_t none; sigemptyset(&none); sigprocmask(SIG_SETMASK, &none, NULL); }
     g_self = getpid();
     PlatformSpecificFork = my_fork;
     PlatformSpecificWaitPid = my_waitpid;
